@@ -284,6 +284,13 @@ func (e *Env) eval(ex SExpr) Val {
 			}
 		}
 		ce.depth = e.depth + 1
+		if ce.old != nil {
+			// bound variables are visible inside old(...)
+			ce.old = ce.old.child()
+			for _, v := range n.Vars {
+				ce.old.vars[v.Name] = ce.vars[v.Name]
+			}
+		}
 		// facts assumed while evaluating the body must not leak bound names:
 		// evaluate on a scratch copy of the state.
 		saved := ce.st
@@ -296,7 +303,22 @@ func (e *Env) eval(ex SExpr) Val {
 		body := x.evalBool(ce, n.Body)
 		var extra []Term
 		for _, t := range scratch.pc[len(saved.pc):] {
-			extra = append(extra, t)
+			mentions := false
+			for _, b := range binders {
+				name := b[1:strings.IndexByte(b, ' ')]
+				if strings.Contains(t.S, name) {
+					mentions = true
+				}
+			}
+			if mentions {
+				// a library/type fact instantiated at a term that mentions the
+				// bound variables: it holds for all their values, so it is
+				// assumed as a universally quantified fact of its own
+				saved.assume(Term{fmt.Sprintf("(forall (%s) %s)", strings.Join(binders, " "), Implies(And(ranges...), t).S), "Bool"})
+			} else {
+				// a fact about free symbols only: it belongs to the enclosing state
+				saved.assume(t)
+			}
 		}
 		q := "exists"
 		if n.Forall {
@@ -326,6 +348,14 @@ func (e *Env) eval(ex SExpr) Val {
 			}
 			x.d.DeclareFun("ssub", "(declare-fun ssub (Str Int Int) Str)")
 			return Val{T: Term{fmt.Sprintf("(ssub %s %s %s)", v.T.S, lo.S, hi.S), "Str"}, Typ: v.Typ}
+		}
+		if sl, ok := v.Typ.Underlying().(*types.Slice); ok {
+			x.te.SortOf(v.Typ)
+			hi := sliceLen(v.T)
+			if n.Hi != nil {
+				hi = e.eval(n.Hi).T
+			}
+			return Val{T: x.subSlice(e.st, v.Typ, sl, v.T, lo, hi, sliceCap(v.T)), Typ: v.Typ}
 		}
 		return e.fail("slice expressions on %s not supported in specs", v.Typ)
 	case SCall:
@@ -1097,7 +1127,7 @@ func (x *Exec) pureApp(st *State, f *ssa.Function, args []Val) Val {
 		if o := f.Origin(); o != nil {
 			name = o.String()
 		}
-		r := x.uninterp(st, fmt.Sprintf("lf_%s_%d", sanitize(name), 0), args, f.Signature.Results().At(0).Type())
+		r := x.uninterp(st, fmt.Sprintf("lf_%s_%d", sanitize(name), 0), x.bytesAsStrings(st, args), f.Signature.Results().At(0).Type())
 		if f.Signature.Results().Len() == 1 {
 			x.libFacts(st, name, args, []Val{r})
 		}
@@ -1227,6 +1257,7 @@ func (x *Exec) mapLen(st *State, m Term, mt *types.Map) Term {
 	hk, hs, _, _ := x.mapComps(mt)
 	has := x.heapGet(st, hk, hs)
 	fn := "maplen_" + sanitize(x.te.SortOf(mt.Key()))
+	_ = hk
 	x.d.DeclareFun(fn, fmt.Sprintf("(declare-fun %s (%s) Int)", fn, arrayElemSort(has.Sort)))
 	t := Term{fmt.Sprintf("(%s (select %s %s))", fn, has.S, m.S), "Int"}
 	st.assume(Ge(t, IntLit(0)))
